@@ -260,6 +260,18 @@ func c09ForSig(p *Prog, sg c09Sig, si int) []*S {
 	}
 	p.Funcs = append(p.Funcs, &Func{Name: wname, Results: results, Body: wbody})
 	out = append(out, use(&E{K: "call", Fn: wname}, "w")...)
+	// return f(..., q...): a spread call as the sole operand of return
+	if sg.variadic {
+		wsname := fmt.Sprintf("ws%d", si)
+		vt := SliceOf(TInt)
+		innerS := &E{K: "call", Fn: name, Args: append(args(3), v("q", vt)), Spread: true, NRes: sg.nres}
+		wsbody := []*S{{K: "return", NRes: sg.nres, Exprs: []*E{innerS}}}
+		if sg.nres == 0 {
+			wsbody = []*S{{K: "expr", E: innerS, NRes: 0}}
+		}
+		p.Funcs = append(p.Funcs, &Func{Name: wsname, Params: []string{"q"}, PTypes: []*Ty{vt}, Results: results, Body: wsbody})
+		out = append(out, use(&E{K: "call", Fn: wsname, Args: []*E{{K: "slicelit", Ty: vt, Args: []*E{lit(TInt, 8), lit(TInt, 9)}}}}, "ws")...)
+	}
 	// as the argument of another call (single int result)
 	if sg.nres == 1 && results[0].K == "int" {
 		c := plain(0, 1)
